@@ -10,6 +10,7 @@ import (
 	"io"
 	"runtime/metrics"
 	"sort"
+	"sync/atomic"
 	"testing"
 
 	sftp "github.com/pkg/sftp"
@@ -152,6 +153,9 @@ var vfC08Entries = func() []vfC08Entry {
 			var a sshfx.Attributes
 			return a.XXX_UnmarshalByFlags(c.Flags, sshfx.NewBuffer(append([]byte{}, c.Input...)))
 		}},
+		// the wire codec's name-list decoding is hand-written inside Client.ReadDirContext: the entry point is a
+		// READDIR answered with NAME + the input (seed C08-d); the allowance covers the session around it
+		{Name: "W.namelist", Types: []byte{vfFxpName}, Part: "afterid", Slack: 1 << 20, Call: vfC08ClientNameList},
 		{Name: "X.nameentry", Types: []byte{vfFxpName}, Part: "nameentry", Call: func(c *vfCaseC08) error {
 			var e sshfx.NameEntry
 			return e.UnmarshalBinary(append([]byte{}, c.Input...))
@@ -356,6 +360,39 @@ func vfGenC08(t *rapid.T) vfCaseC08 {
 const vfC08Base = 512 * 1024
 
 // vfRunC08 decides one (entry, input) pair.
+// vfC08ClientNameList feeds the input to the client as the body (after the id) of the NAME reply to the first
+// READDIR of a ReadDir call. A panic of the call is re-raised here, in the measured goroutine.
+func vfC08ClientNameList(c *vfCaseC08) error {
+	var armed atomic.Bool
+	armed.Store(true)
+	s, err := vfStartSession(vfOpts{MaxPacket: 32768, Conc: 1}, func(p *vfPeer, l *vfLink) {
+		p.mutate = func(idx int, req *vfPkt, frame []byte) []byte {
+			if req.Type == vfFxpReaddir && armed.CompareAndSwap(true, false) {
+				body := binary.BigEndian.AppendUint32([]byte{vfFxpName}, req.ID)
+				return vfFrame(append(body, c.Input...))
+			}
+			return frame
+		}
+	})
+	if err != nil {
+		return fmt.Errorf("handshake: %v", err)
+	}
+	sub := &vfCtx{}
+	d, res := vfCall(func() (string, error) { _, err := s.c.ReadDir("/dir"); return "", err })
+	hung := !vfAwait(sub, d, "ReadDir")
+	dc, _ := vfCall(func() (string, error) { return "", s.c.Close() })
+	vfAwait(sub, dc, "Close")
+	s.link.C2S.closeWrite()
+	vfAwait(sub, s.peer.done, "peer")
+	if res.Panic != nil {
+		panic(fmt.Sprintf("%v\n%s", res.Panic, vfTrimStack([]byte(res.Stack))))
+	}
+	if hung {
+		return fmt.Errorf("ReadDir did not return") // C20's business, not a decoding verdict
+	}
+	return res.Err
+}
+
 func vfRunC08(ctx *vfCtx, c vfCaseC08) {
 	e := vfC08EntryByName[c.Entry]
 	if e == nil {
